@@ -97,3 +97,71 @@ Proof.
 Qed.
 
 End WITH_U.
+
+(* ------------------------------------------------------------------ C01, rule level *)
+
+Local Arguments ctx_get : simpl never.
+Local Arguments assign : simpl never.
+Local Arguments oupdate : simpl never.
+
+Section RULE.
+Variable U : ufuns.
+
+(* a rule `dst = src` without modifiers is: look the source up, write it *)
+Lemma follow_plain_assign f r c :
+  typ r = typeOperator -> callback r = false -> getter r = false -> static r = false ->
+  nonempty (dst r) = true -> nonempty (src r) = true -> mods r = [] ->
+  follow U (S f) r c =
+    (let '(c1, raw) := ctx_get c (src r) (subset r) in
+     match cerr c1 with
+     | Some x => (c1, Some x)
+     | None => ctx_set_path U c1 (dst r) raw (ins r)
+     end).
+Proof.
+  intros H H1 H2 H3 H4 H5 H6. cbn [follow]. rewrite H. cbn. rewrite H1, H2, H3, H4, H5, H6. cbn.
+  destruct (ctx_get c (src r) (subset r)) as [c1 raw]. destruct (cerr c1); reflexivity.
+Qed.
+
+(* C01, end to end for the central case: `obj.F = jso.path`, F a field of the
+   destination struct, path leading to a present value.  After the rule the
+   field holds exactly the assign cascade's conversion of that value (which the
+   C01_* theorems characterise as `convert` of its text, or the number narrowed
+   as Go narrows), every other object is untouched, no variable changes and the
+   rule succeeds. *)
+Theorem vector_to_field_rule f r c dk fk sk srest doc oid ob fld fld' :
+  typ r = typeOperator -> callback r = false -> getter r = false -> static r = false ->
+  mods r = [] -> subset r = [] -> cerr c = None ->
+  split_path (dst r) = [dk; fk] -> is_ctx_name dk = false ->
+  split_path (src r) = sk :: srest ->
+  find_var (vars c) sk = Some (VNode doc, InsVector) ->
+  find_var (vars c) dk = Some (VObj oid [], InsObj) ->
+  nth_error (store c) oid = Some ob -> assoc_b fk (o_fields ob) = Some fld ->
+  assign c fld (VNode (jget doc srest)) = Some fld' ->
+  let res := follow U (S f) r c in
+  snd res = None /\
+  store (fst res) = set_nth_l (store c) oid (oupdate ofuel ob [fk] fld') /\
+  vars (fst res) = vars c.
+Proof.
+  intros H H1 H2 H3 H6 Hsub Hce Hd Hk Hs Hsv Hdv Hob Hf Ha.
+  assert (Hnd : nonempty (dst r) = true).
+  { destruct (dst r); [discriminate Hd|reflexivity]. }
+  assert (Hns : nonempty (src r) = true).
+  { destruct (src r); [discriminate Hs|reflexivity]. }
+  cbv zeta. rewrite (follow_plain_assign f r c H H1 H2 H3 Hnd Hns H6).
+  unfold ctx_get. rewrite Hsub.
+  destruct (src r) as [|s0 s'] eqn:Es; [discriminate|].
+  change (vars (w_bufX c VNil)) with (vars c).
+  destruct (vars c) as [|v0 vs] eqn:Ev; [discriminate Hsv|].
+  rewrite Hs, Hsv. cbn [cerr w_bufX]. rewrite Hce.
+  unfold ctx_set_path.
+  destruct (dst r) as [|d0 d'] eqn:Ed; [discriminate|].
+  cbn [vars w_bufX]. rewrite Ev, Hd, Hk, Hdv.
+  unfold obj_setwb. cbn [store w_bufX app]. rewrite Hob.
+  cbn [oresolve ofuel]. rewrite Hf.
+  assert (Ha' : forall cc, bufLC cc = bufLC c -> assign cc fld (VNode (jget doc srest)) = Some fld').
+  { intros cc E. rewrite <- Ha. unfold assign, x2bytes, deref. reflexivity. }
+  rewrite Ha' by reflexivity.
+  cbn [fst snd store vars w_cerr w_store w_bufX]. rewrite Ev. repeat split.
+Qed.
+
+End RULE.
